@@ -21,6 +21,7 @@ LAYOUTS = {
     'single': ('established',),
     'rekeyed_done': ('rekeyed_deleted', 'established'),
     'rekey_failed': ('rekey_failed', 'established'),
+    'successor_gone': ('rekeyed_successor_deleted', 'established'),
 }
 
 
@@ -38,6 +39,16 @@ def build(layout):
             c.rekey_ike(ep)
         elif kind == 'rekeyed_deleted':
             c.rekey_ike(ep, deliver_delete=True)
+        elif kind == 'rekeyed_successor_deleted':
+            # rekey completed at the controller (old entry REKEYED, successor listed) but the delete of the OLD IKE_SA never arrives; meanwhile the
+            # initiator deletes the SUCCESSOR through a delete exchange on the new IKE_SA
+            c.rekey_ike(ep)
+            a2 = ep.obj.new_ike_sa
+            world.ENV.now = a2.delete_ike_sa_at + 3600
+            dreq = ep.call(a2.check_rekey_ike_sa_timer)
+            dres = c.dispatch(dreq)
+            ep.call(a2.process_message, dres)
+            assert ep.entry.state == S.REKEYED and ep.entry.new_ike_sa not in c.ctl.ike_sas
         elif kind == 'rekey_failed':
             # the controller's own IKE_SA rekey attempt is refused with TEMPORARY_FAILURE (the peer was busy with its own DPD exchange)
             e, a = ep.entry, ep.obj
@@ -91,7 +102,7 @@ def table_invariant(c, pre_kernel_keys=None):
             bad.append('an IKE_SA in state DELETED is still listed')
         if e.state == S.INITIAL and not e.is_initiator:
             bad.append('a responder IKE_SA that never left INITIAL is still listed (it can never be reached again)')
-        if e.state in (S.REKEYED, S.DEL_AFTER_REKEY_IKE_SA_REQ_SENT) and e.new_ike_sa not in t:
+        if e.state in (S.REKEYED, S.DEL_AFTER_REKEY_IKE_SA_REQ_SENT) and e.new_ike_sa not in t and e.new_ike_sa.state != S.DELETED:
             bad.append('the IKE_SA created by rekey is not listed')
     # kernel SAs == CHILD_SAs of the listed IKE_SAs
     want = set()
